@@ -292,20 +292,32 @@ func runC14(p *core.Prog, r *core.Report) {
 					body := ifi.Block().Succs[0]
 					// first If in body: (i % 2) == c → skip
 					if bi, ok := body.Instrs[len(body.Instrs)-1].(*ssa.If); ok {
-						if bo, ok := bi.Cond.(*ssa.BinOp); ok && bo.Op == token.EQL {
+						// (i % 2) == c, possibly hoisted into a local and negated for the other kinds
+						cnd, neg := core.StripNot(bi.Cond)
+						if bo, ok := cnd.(*ssa.BinOp); ok && bo.Op == token.EQL {
 							if rem, ok := bo.X.(*ssa.BinOp); ok && rem.Op == token.REM && isConstInt(rem.Y, 2) {
 								if k, ok := bo.Y.(*ssa.Const); ok {
-									// the true edge must skip the module (go back to the loop header without appending)
-									skipOK := !reachFromBlock(pc.fn, bi.Block().Succs[0], pc.appendIn) || bi.Block().Succs[0] == pc.modLoop.Header
+									// one edge must skip the module (back to the loop header without appending), the other admit it;
+									// the builder folds a negated test into swapped edges, so either edge may be the skipping one
 									q := core.PathQuery{Fn: pc.fn, CutInstr: func(x ssa.Instruction) bool { return x == pc.modLoop.Header.Instrs[0] }}
-									_, reach := q.CanReach(bi.Block().Succs[0].Instrs[0], func(x ssa.Instruction) bool { return x == pc.appendIn })
-									if bi.Block().Succs[0] == pc.modLoop.Header {
-										reach = false
+									admits := func(b *ssa.BasicBlock) bool {
+										if b == pc.modLoop.Header {
+											return false
+										}
+										_, reach := q.CanReach(b.Instrs[0], func(x ssa.Instruction) bool { return x == pc.appendIn })
+										return reach
 									}
-									_ = skipOK
-									if !reach {
-										parity[name] = "skip-on-" + k.Value.ExactString()
-									} else {
+									kv := k.Value.ExactString()
+									if neg {
+										kv = map[string]string{"0": "1", "1": "0"}[kv]
+									}
+									onTrue, onFalse := admits(bi.Block().Succs[0]), admits(bi.Block().Succs[1])
+									switch {
+									case !onTrue && onFalse:
+										parity[name] = "skip-on-" + kv
+									case onTrue && !onFalse:
+										parity[name] = "skip-on-" + map[string]string{"0": "1", "1": "0"}[kv]
+									default:
 										parity[name] = "no-skip"
 									}
 								}
@@ -344,21 +356,28 @@ func runC14(p *core.Prog, r *core.Report) {
 			strings.HasPrefix(parity["Module_KindStore_"], "skip-on-") && strings.HasPrefix(parity["Module_KindMap_"], "skip-on-")
 		r.Check(okPar, "C14.R3", "computeStages/parity", "maps and block indexes are admitted on one parity of the layer counter and stores on the other (a layer holds only stores or only non-stores)", fmt.Sprintf("%v", parity), p.Pos(pc.fn.Pos()))
 		// stage closing
+		// (in computeStages or in the helper of its family that groups the layers into stages)
 		var stagesAppend ssa.Instruction
-		core.Instrs(pc.fn, func(in ssa.Instruction) {
-			if _, ok := core.IsBuiltinCall(in, "append"); ok {
-				if n, ok := in.(ssa.Value).Type().(*types.Named); ok && n.Obj().Name() == "ExecutionStages" {
-					stagesAppend = in
-				}
+		closeFn := pc.fn
+		for _, member := range core.Family(pc.fn, 1) {
+			if member.Parent() != nil || stagesAppend != nil {
+				continue
 			}
-		})
+			core.Instrs(member, func(in ssa.Instruction) {
+				if _, ok := core.IsBuiltinCall(in, "append"); ok {
+					if n, ok := in.(ssa.Value).Type().(*types.Named); ok && n.Obj().Name() == "ExecutionStages" {
+						stagesAppend, closeFn = in, member
+					}
+				}
+			})
+		}
 		if stagesAppend == nil {
 			core.Undecide("computeStages: append to the stages not found")
 		}
 		isStoreLayer := p.FuncObj(pkgExec, "LayerModules.IsStoreLayer")
 		var closeEdges []core.Edge
 		nStore, nLast := 0, 0
-		core.Instrs(pc.fn, func(in ssa.Instruction) {
+		core.Instrs(closeFn, func(in ssa.Instruction) {
 			ifi, ok := in.(*ssa.If)
 			if !ok {
 				return
@@ -384,13 +403,13 @@ func runC14(p *core.Prog, r *core.Report) {
 				}
 			}
 		})
-		q := core.PathQuery{Fn: pc.fn, CutEdge: func(e core.Edge) bool { return containsEdge(closeEdges, e) }}
+		q := core.PathQuery{Fn: closeFn, CutEdge: func(e core.Edge) bool { return containsEdge(closeEdges, e) }}
 		_, reach := q.CanReach(nil, func(x ssa.Instruction) bool { return x == stagesAppend })
 		okAll := nStore > 0 && nLast > 0 && !reach
 		for _, e := range closeEdges {
 			first := e.From.Succs[e.Idx].Instrs[0]
 			if first != stagesAppend {
-				if _, ok := core.MustReachAfter(pc.fn, first, func(x ssa.Instruction) bool { return x == stagesAppend }, func(x ssa.Instruction) bool {
+				if _, ok := core.MustReachAfter(closeFn, first, func(x ssa.Instruction) bool { return x == stagesAppend }, func(x ssa.Instruction) bool {
 					_, isRet := x.(*ssa.Return)
 					return isRet
 				}); !ok {
